@@ -93,6 +93,11 @@ where
         let begin_idx = self.counter().fetch_and_add(number_to_fetch);
 
         loop {
+            // once completed (source exhausted or skip_to_end is called), no one is allowed to fetch
+            if self.completed.load(atomic::Ordering::Relaxed) {
+                return None;
+            }
+
             let yielded_count = self.yielded_counter.current();
             match begin_idx.cmp(&yielded_count) {
                 // begin_idx==yielded_count => it is our job to provide the items
@@ -101,17 +106,18 @@ where
                 Ordering::Less => return None,
 
                 // begin_idx > yielded_count => we need the other items to be yielded
-                Ordering::Greater => {
-                    if self.completed.load(atomic::Ordering::Relaxed) {
-                        return None;
-                    }
-                }
+                Ordering::Greater => {}
             }
         }
     }
 
     fn get(&self, item_idx: usize) -> Option<T> {
         loop {
+            // once completed (source exhausted or skip_to_end is called), no one is allowed to fetch
+            if self.completed.load(atomic::Ordering::Relaxed) {
+                return None;
+            }
+
             let yielded_count = self.yielded_counter.current();
             match item_idx.cmp(&yielded_count) {
                 // item_idx==yielded_count => it is our job to provide the item
@@ -130,11 +136,7 @@ where
                 Ordering::Less => return None,
 
                 // item_idx > yielded_count => we need the other items to be yielded
-                Ordering::Greater => {
-                    if self.completed.load(atomic::Ordering::Relaxed) {
-                        return None;
-                    }
-                }
+                Ordering::Greater => {}
             }
         }
     }
@@ -168,7 +170,6 @@ where
     }
 
     fn early_exit(&self) {
-        self.counter().store(usize::MAX);
         self.completed.store(true, atomic::Ordering::SeqCst);
     }
 }
